@@ -35,6 +35,13 @@ def check(ctx, rep, tier):
     for name in names:
         c18._value_fields(ctx, rep, eng, name)
     c18._eq_hash(ctx, rep)
+    # a builder that labels by the bound-free text form relies on that form being faithful
+    if any("nb_str" in norm(f) for f in builders):
+        rep.describe("print-parse", "the text form used for labelling prints every value field "
+                     "(imported from C18)")
+        c18._time_print_parse(ctx, rep)
+        c18._interval_print_parse(ctx, rep)
+        c18._duration_print_parse(ctx, rep)
     _entry(ctx, rep)
     rep.assume("not decided: monotonicity of the retrained score under duplication of a positive "
                "example (a theorem about the estimator over all corpora)")
